@@ -128,59 +128,78 @@ pub async fn run(out: &mut Out) {
     for _ in 0..nworlds {
         let (conns, rules) = gen_world(&mut rng);
         let w = world(&conns, 10);
-        let res = set_rules(&w, &rules).await;
-        out.case(&format!("W {} {}", conns_line(&conns), rules_line(&rules)), if res.is_ok() { "ok" } else { "rejected" });
-        out.stat(if res.is_ok() { "worlds_accepted" } else { "worlds_rejected" });
-        if res.is_err() {
-            continue;
-        }
-        for _ in 0..rng.range(2, 6) {
-            let r = &reqs[rng.below(reqs.len())];
-            let plen = rng.below(40);
-            let payload = rng.bytes(plen);
-            // some connectors refuse
-            let mut failing = vec![];
-            for c in w.conns.iter() {
-                let f = rng.chance(1, 6);
-                c.fail.store(f, std::sync::atomic::Ordering::SeqCst);
-                if f {
-                    failing.push(hex(c.name.as_bytes()));
+        // one or two rule lists on the same world: the second keeps every filter text and changes the targets (what an
+        // operator does when re-pointing rules at run time)
+        let mut rules = rules;
+        for phase in 0..2 {
+            if phase == 1 {
+                if !rng.chance(1, 2) {
+                    break;
                 }
+                let names: Vec<String> = conns.iter().map(|c| c.0.clone()).chain(std::iter::once("deny".to_string())).collect();
+                for r in rules.iter_mut() {
+                    let mut t = names[rng.below(names.len())].clone();
+                    if t == r.0 {
+                        t = names[(names.iter().position(|n| *n == t).unwrap() + 1) % names.len()].clone();
+                    }
+                    r.0 = t;
+                }
+                out.stat("retargeted_reloads");
             }
-            let expected = oracle_expected(&w, r, &rules).await;
-            let o = run_request(&w, r, &payload).await;
-            let line = outcome_line(&o);
-            out.case(&format!("Q {} {} {}", req_line(r), hex(&payload), if failing.is_empty() { "-".to_string() } else { failing.join(",") }), &line);
-            // ---- oracle (independent of the model)
-            let feature_ok = |name: &str| conns.iter().any(|(n, f)| n == name && f.contains(&r.feature));
-            match &expected {
-                Some(Some(name)) if feature_ok(name) => {
-                    out.stat("decision_connect");
-                    if o.connects != vec![name.clone()] {
-                        out.oracle_fail("wrong-upstream", &format!("first matching rule names {:?} but connect() was called on {:?}", name, o.connects));
-                    }
-                    if o.connector.as_deref() != Some(name.as_str()) {
-                        out.oracle_fail("wrong-connector-recorded", &format!("record says {:?}, rule says {:?}", o.connector, name));
-                    }
-                    let failed = failing.contains(&hex(name.as_bytes()));
-                    if !failed && (o.upstream.len() != 1 || o.upstream[0].1 != payload) {
-                        out.oracle_fail("payload-not-forwarded", &format!("upstream saw {:?}", o.upstream.iter().map(|(n, b)| (n.clone(), hex(b))).collect::<Vec<_>>()));
-                    }
-                    if failed && !o.upstream.is_empty() {
-                        out.oracle_fail("payload-leak", "payload forwarded although the upstream refused");
+            let res = set_rules(&w, &rules).await;
+            out.case(&format!("W {} {}", conns_line(&conns), rules_line(&rules)), if res.is_ok() { "ok" } else { "rejected" });
+            out.stat(if res.is_ok() { "worlds_accepted" } else { "worlds_rejected" });
+            if res.is_err() {
+                break;
+            }
+            for _ in 0..rng.range(2, 6) {
+                let r = &reqs[rng.below(reqs.len())];
+                let plen = rng.below(40);
+                let payload = rng.bytes(plen);
+                // some connectors refuse
+                let mut failing = vec![];
+                for c in w.conns.iter() {
+                    let f = rng.chance(1, 6);
+                    c.fail.store(f, std::sync::atomic::Ordering::SeqCst);
+                    if f {
+                        failing.push(hex(c.name.as_bytes()));
                     }
                 }
-                other => {
-                    out.stat(match other {
-                        None => "decision_norule",
-                        Some(None) => "decision_deny",
-                        _ => "decision_unsupported",
-                    });
-                    if !o.connects.is_empty() || !o.upstream.is_empty() {
-                        out.oracle_fail("leak-on-deny", &format!("request must be refused ({:?}) but connect() was called on {:?}, upstream bytes {:?}", other, o.connects, o.upstream.len()));
+                let expected = oracle_expected(&w, r, &rules).await;
+                let o = run_request(&w, r, &payload).await;
+                let line = outcome_line(&o);
+                out.case(&format!("Q {} {} {}", req_line(r), hex(&payload), if failing.is_empty() { "-".to_string() } else { failing.join(",") }), &line);
+                // ---- oracle (independent of the model)
+                let feature_ok = |name: &str| conns.iter().any(|(n, f)| n == name && f.contains(&r.feature));
+                match &expected {
+                    Some(Some(name)) if feature_ok(name) => {
+                        out.stat("decision_connect");
+                        if o.connects != vec![name.clone()] {
+                            out.oracle_fail("wrong-upstream", &format!("first matching rule names {:?} but connect() was called on {:?}", name, o.connects));
+                        }
+                        if o.connector.as_deref() != Some(name.as_str()) {
+                            out.oracle_fail("wrong-connector-recorded", &format!("record says {:?}, rule says {:?}", o.connector, name));
+                        }
+                        let failed = failing.contains(&hex(name.as_bytes()));
+                        if !failed && (o.upstream.len() != 1 || o.upstream[0].1 != payload) {
+                            out.oracle_fail("payload-not-forwarded", &format!("upstream saw {:?}", o.upstream.iter().map(|(n, b)| (n.clone(), hex(b))).collect::<Vec<_>>()));
+                        }
+                        if failed && !o.upstream.is_empty() {
+                            out.oracle_fail("payload-leak", "payload forwarded although the upstream refused");
+                        }
                     }
-                    if o.events != vec!["on_error".to_string()] {
-                        out.oracle_fail("refusal-not-delivered", &format!("callback events {:?}", o.events));
+                    other => {
+                        out.stat(match other {
+                            None => "decision_norule",
+                            Some(None) => "decision_deny",
+                            _ => "decision_unsupported",
+                        });
+                        if !o.connects.is_empty() || !o.upstream.is_empty() {
+                            out.oracle_fail("leak-on-deny", &format!("request must be refused ({:?}) but connect() was called on {:?}, upstream bytes {:?}", other, o.connects, o.upstream.len()));
+                        }
+                        if o.events != vec!["on_error".to_string()] {
+                            out.oracle_fail("refusal-not-delivered", &format!("callback events {:?}", o.events));
+                        }
                     }
                 }
             }
